@@ -17,7 +17,8 @@ TLBs taking `k` messages or acknowledging their `j`-th outstanding request — f
 configuration `CpSCfg` (numbers of components, all buffer capacities). `CpSEnv.step` is the function
 the correspondence check runs against the real component (`c11 cps` case lines). `reachCpsOld` is the same
 for the code BEFORE repair 0728adcb (`processFlushReq` without the `shootDownInProcess` guard,
-`processShootdownCommand` without the `numCacheACK > 0` guard). -/
+`processShootdownCommand` without the `numCacheACK > 0` guard), `reachCpsOldL` for the code before the repair
+of finding `C11-cp-launch-in-shootdown` (`processLaunchKernelReq` without the `shootDownInProcess` guard). -/
 namespace C11
 
 /-- flush + copies, no shootdown -/
@@ -112,25 +113,27 @@ def cpsDemoNilTail : List SOp := [.take .tlb 1, .ack .tlb 0, .cp .tick, .cp (.ta
     unacknowledged at any component) in which no `ShootdownCompleteRsp` was handed to a full ToDriver
     (`dropDone = 0` — that `Send` is still unchecked) the driver has taken exactly one answer per accepted
     flush / H2D / D2H request and one `ShootdownCompleteRsp` per accepted shootdown command.
-    (`cpsNoLaunch`: the moves deliver no `LaunchKernelReq`; the runs with kernel launches are section 4.) -/
-theorem cps_flush_answered_full (g : CpSCfg) (ops : List SOp) (hr : g.Roomy) (hn : cpsNoLaunch ops) :
+    Since the repair of finding `C11-cp-launch-in-shootdown` the moves may deliver `LaunchKernelReq`s as
+    well, at any time (the hypothesis `cpsNoLaunch ops` of the former statement is gone): the third user of
+    the counter waits for a shootdown like the other two (section 4). -/
+theorem cps_flush_answered_full (g : CpSCfg) (ops : List SOp) (hr : g.Roomy) :
     (reachCps g ops).s.c.fault = none ∧
     ((reachCps g ops).s.dropCU = 0 ∧ (reachCps g ops).s.dropAT = 0 ∧ (reachCps g ops).s.dropC = 0 ∧
       (reachCps g ops).s.dropTLB = 0) ∧
     ((reachCps g ops).quiet → (reachCps g ops).s.dropDone = 0 → (reachCps g ops).allAnswered) := by
-  have h := cps_reach_serInv g hr ops (cps_serial_of_noLaunch ops _ hn)
+  have h := cps_reach_serInv g hr ops
   exact ⟨h.nf, h.rest.nodrop, fun hq hd => h.quiet_answered hr (cps_reach_nodrop g ops) hq hd⟩
 
 /-- the two overlapping runs of the former finding on the repaired code: the later request waits in the
     driver port until the earlier user of the counter is done; both are answered -/
-example : cpsNoLaunch (cpsDemoLost ++ cpsDemoLostTail) ∧ ({} : CpSCfg).Roomy ∧
+example : ({} : CpSCfg).Roomy ∧
     (reachCps {} (cpsDemoLost ++ cpsDemoLostTail)).quiet ∧
     (reachCps {} (cpsDemoLost ++ cpsDemoLostTail)).drained = [.sdone 0, .ans ⟨0, .flush⟩] ∧
     (reachCps {} (cpsDemoLost ++ cpsDemoLostTail)).s.sig = "0,0,0,0,0,0,0,0,0" ∧
-    cpsNoLaunch (cpsDemoNil ++ cpsDemoNilTail) ∧ (reachCps {} (cpsDemoNil ++ cpsDemoNilTail)).quiet ∧
+    (reachCps {} (cpsDemoNil ++ cpsDemoNilTail)).quiet ∧
     (reachCps {} (cpsDemoNil ++ cpsDemoNilTail)).s.c.fault = none ∧
     (reachCps {} (cpsDemoNil ++ cpsDemoNilTail)).drained = [.ans ⟨0, .flush⟩, .sdone 0] := by
-  unfold CpSEnv.quiet CpSCfg.Roomy cpsNoLaunch
+  unfold CpSEnv.quiet CpSCfg.Roomy
   decide +kernel
 
 /-- **Statement 2 for the code before repair 0728adcb** (`CpSEnv.stepOld`: `CpS.handleOld` takes a flush
@@ -234,11 +237,11 @@ def cpsDemoSerial : List SOp :=
    .cp (.takeDrv 9)]
 
 /-- an instance of `cps_flush_answered_full` -/
-example : cpsNoLaunch cpsDemoSerial ∧ ({} : CpSCfg).Roomy ∧ (reachCps {} cpsDemoSerial).quiet ∧
+example : ({} : CpSCfg).Roomy ∧ (reachCps {} cpsDemoSerial).quiet ∧
     (reachCps {} cpsDemoSerial).s.dropDone = 0 ∧
     (reachCps {} cpsDemoSerial).drained = [.sdone 0, .ans ⟨1, .d2h⟩, .ans ⟨0, .h2d⟩, .ans ⟨2, .flush⟩, .sdone 1] ∧
     (reachCps {} cpsDemoSerial).sent = [⟨0, .h2d⟩, ⟨1, .d2h⟩, ⟨2, .flush⟩] ∧ (reachCps {} cpsDemoSerial).shootSent = 2 := by
-  unfold CpSEnv.quiet CpSCfg.Roomy cpsNoLaunch
+  unfold CpSEnv.quiet CpSCfg.Roomy
   decide +kernel
 
 /-- the remaining hypothesis `dropDone = 0` of `cps_flush_answered_full` is needed:
@@ -254,8 +257,8 @@ example :
       .cp (.ack 0), .cp (.ack 0), .cp (.ack 0), .cp .tick, .cp .tick, .cp .tick, .cp .tick, .take .tlb 1, .ack .tlb 0, .cp .tick,
       .cp (.takeDrv 9)]).s.dropDone = 1 := by decide +kernel
 
-/-- **(b) The flush protocol of `Props/C11Cp.lean` holds with shootdowns in ANY interleaving**
-    (launch-free runs): the copy / flush path's event log is accepted by the acceptor `specStep` (a flush starts
+/-- **(b) The flush protocol of `Props/C11Cp.lean` holds with shootdowns and kernel launches in ANY
+    interleaving**: the copy / flush path's event log is accepted by the acceptor `specStep` (a flush starts
     only when none is open, asks every cache once in order, is answered only when all `n` caches were
     asked and every request acknowledged; a copy is forwarded only when no flush is open); hence before
     every forward event every started flush was answered and every flush request acknowledged; and the
@@ -263,7 +266,7 @@ example :
     acknowledgements processed, with no copy forwarded in between. (The shootdown's reset requests and
     their acknowledgements are not events of this log: they are `SEv.reset` / `SEv.ackS` of the shared
     log, and `cps_no_copy_while_cache_acks_outstanding` covers them.) -/
-theorem cps_flush_protocol (g : CpSCfg) (ops : List SOp) (hr : g.Roomy) (hn : cpsNoLaunch ops) :
+theorem cps_flush_protocol (g : CpSCfg) (ops : List SOp) (hr : g.Roomy) :
     (∃ q, specRun g.nCaches {} (reachCps g ops).s.c.log = some q) ∧
     (∀ pre post ev, ev.isFwd = true → (reachCps g ops).s.c.log = pre ++ ev :: post →
       pre.filterMap CpEv.flushStart? = pre.filterMap CpEv.flushDone? ∧
@@ -272,7 +275,7 @@ theorem cps_flush_protocol (g : CpSCfg) (ops : List SOp) (hr : g.Roomy) (hn : cp
       (∃ p1 p2, pre = p1 ++ .flushStart f :: p2 ∧ p2.filterMap CpEv.cacheIdx? = List.range g.nCaches ∧
         p2.countP CpEv.isAck = g.nCaches ∧ ∀ ev ∈ p2, ev.isFwd = false) ∧
       f ∉ pre.filterMap CpEv.flushDone? ∧ f ∉ post.filterMap CpEv.flushDone?) := by
-  have h := cps_reach_serInv g hr ops (cps_serial_of_noLaunch ops _ hn)
+  have h := cps_reach_serInv g hr ops
   obtain ⟨q, hq, _⟩ := h.inv.flush.spec
   have hq' : specRun g.nCaches {} (reachCps g ops).s.c.log = some q := by
     rw [← h.rest.ncaches]; exact hq
@@ -289,14 +292,14 @@ example : (reachCps {} cpsDemoSerial).s.c.log =
     [.fwd 0 0 .h2d true, .fwd 1 1 .d2h true, .done 1 1 .d2h true, .flushStart 2, .cacheReq 0, .cacheReq 1, .cacheReq 2,
      .cacheReq 3, .done 0 0 .h2d true, .ack, .ack, .ack, .ack, .flushDone 2 true] := by decide +kernel
 
-/-- **(b) Copies with shootdowns in any interleaving (launch-free runs): forwarded once in arrival order, answered once for the original
+/-- **(b) Copies with shootdowns and kernel launches in any interleaving: forwarded once in arrival order, answered once for the original
     request** (the statements of `cp_copies_forwarded_once_in_order` / `cp_copies_answered_once`): the
     requests the driver port accepted are the requests taken from the port (one `flushStart` / `fwd`
     event each, in arrival order) followed by those waiting in the port — in front of and behind
     shootdown commands; the clones the DMA side has seen plus those in ToDMA are the forward events in
     order; the answers the driver has taken plus those in ToDriver (between the `ShootdownCompleteRsp`s)
     are the answer events in order; no request is answered twice; clone ids are pairwise distinct. -/
-theorem cps_copies_once (g : CpSCfg) (ops : List SOp) (hr : g.Roomy) (hn : cpsNoLaunch ops) :
+theorem cps_copies_once (g : CpSCfg) (ops : List SOp) (hr : g.Roomy) :
     (reachCps g ops).sent.map (·.id) = List.range (reachCps g ops).sent.length ∧
     (reachCps g ops).sent = (reachCps g ops).s.c.log.filterMap CpEv.popped? ++
       ((reachCps g ops).s.c.drvIn ++ (reachCps g ops).s.later.filterMap SIn.req?) ∧
@@ -306,7 +309,7 @@ theorem cps_copies_once (g : CpSCfg) (ops : List SOp) (hr : g.Roomy) (hn : cpsNo
       (reachCps g ops).s.c.log.filterMap CpEv.rsp? ∧
     ((reachCps g ops).s.c.log.filterMap CpEv.doneOrig?).Nodup ∧
     ((reachCps g ops).s.c.log.filterMap CpEv.fwdCid?).Nodup := by
-  have h := cps_reach_serInv g hr ops (cps_serial_of_noLaunch ops _ hn)
+  have h := cps_reach_serInv g hr ops
   obtain ⟨r, hr1, hr2⟩ := h.inv.pop.popped
   refine ⟨h.inv.pop.ids, ?_, h.inv.copy.clones, h.inv.rsp.rsps, h.inv.copy.done_orig, ?_⟩
   · rw [hr2 h.nf] at hr1; exact hr1
@@ -316,14 +319,14 @@ theorem cps_copies_once (g : CpSCfg) (ops : List SOp) (hr : g.Roomy) (hn : cpsNo
 
 example : (reachCps {} cpsDemoSerial).dmaSeen = [⟨0, 0, .h2d⟩, ⟨1, 1, .d2h⟩] := by decide +kernel
 
-/-- **(b) The shootdown's own bookkeeping (launch-free runs, flushes and copies in any interleaving).** Each of `numCUAck`,
+/-- **(b) The shootdown's own bookkeeping (flushes, copies and kernel launches in any interleaving).** Each of `numCUAck`,
     `numAddrTranslationFlushAck`, `numTLBAck` equals the requests of its class in the CP's port + taken by
     the components and not acknowledged + acknowledgements waiting (no unchecked `Send` lost one, the
     `uint64` counters never wrap); without `shootDownInProcess` all three are 0; with it, the four phases
     (compute units, address translators, caches — through the shared `numCacheACK` —, TLBs) exclude each
     other and exactly one of them is waiting for somebody: the shootdown can neither skip a phase nor
     stall with nothing outstanding. -/
-theorem cps_shootdown_phases (g : CpSCfg) (ops : List SOp) (hr : g.Roomy) (hn : cpsNoLaunch ops) :
+theorem cps_shootdown_phases (g : CpSCfg) (ops : List SOp) (hr : g.Roomy) :
     (reachCps g ops).s.numCU = (reachCps g ops).s.cuOut.length + (reachCps g ops).atCU.length +
       (reachCps g ops).s.cuIn.length ∧
     (reachCps g ops).s.numAT = (reachCps g ops).s.atOut.length + (reachCps g ops).atAT.length +
@@ -339,7 +342,7 @@ theorem cps_shootdown_phases (g : CpSCfg) (ops : List SOp) (hr : g.Roomy) (hn : 
       ((reachCps g ops).s.c.numAck = 0 ∨ (reachCps g ops).s.numTLB = 0) ∧
       0 < (reachCps g ops).s.numCU + (reachCps g ops).s.numAT + (reachCps g ops).s.c.numAck +
         (reachCps g ops).s.numTLB) := by
-  have h := (cps_reach_serInv g hr ops (cps_serial_of_noLaunch ops _ hn)).rest
+  have h := (cps_reach_serInv g hr ops).rest
   exact ⟨h.kcu, h.kat, h.ktlb, h.idle, fun hs' => ⟨(h.phase hs').1, (h.phase hs').2.1, (h.phase hs').2.2, h.live hs'⟩⟩
 
 /-- in the middle of the cache phase of `cpsDemoSerial` (all four resets acknowledged, two of the
@@ -412,37 +415,80 @@ example : (reachCps { nDisp := 2 } [.launch, .cp .tick, .cp (.takeCache 9), .cp 
     .launch, .cp .tick]).s.sig = "0,0,0,0,0,0,0,2,2" := by
   decide +kernel
 
-/-- **Full statement with kernel launches (false for the code as it is).** With every class of component
-    present and roomy buffers the command processor never panics, whatever the driver delivers. -/
-def cps_no_fault_full : Prop :=
-  ∀ (g : CpSCfg) (ops : List SOp), g.Roomy → (reachCps g ops).s.c.fault = none
-
-/-- a `LaunchKernelReq` taken while a shootdown waits for the compute units (`numCacheACK == 0`, so
-    `processLaunchKernelReq` is not held back) -/
+/-- a `LaunchKernelReq` delivered while a shootdown waits for the compute units (`numCacheACK == 0`): since
+    the repair it waits in the driver port until the `ShootdownCompleteRsp` is out -/
 def cpsDemoLaunchInShoot : List SOp :=
   [.shoot, .cp .tick, .launch, .cp .tick, .cp (.takeCache 9), .cp (.ack 0), .cp (.ack 0), .cp .tick, .cp .tick,
    .take .tlb 9, .ack .tlb 0, .cp .tick, .take .cu 9, .ack .cu 0, .cp .tick, .take .at 9, .ack .at 0, .cp .tick,
    .cp (.takeCache 9), .cp (.ack 0), .cp (.ack 0), .cp (.ack 0), .cp (.ack 0), .cp .tick, .cp .tick, .cp .tick, .cp .tick]
 
-/-- **Refuted — open finding `C11-cp-launch-in-shootdown`** (`known_findings.d/C11.json`; replayed on
-    the real `cp.CommandProcessor` by `harness/c11_share.go`): `processLaunchKernelReq` checks
-    `numCacheACK > 0` but not `shootDownInProcess`. The two invalidation acknowledgements bring the counter
+/-- the moves that let the repaired code finish that run: the TLB answers, the kernel-start invalidation
+    is acknowledged, the kernel starts -/
+def cpsDemoLaunchInShootTail : List SOp :=
+  [.take .tlb 9, .ack .tlb 0, .cp .tick, .cp (.takeDrv 9), .cp .tick, .cp (.takeCache 9), .cp (.ack 1), .cp (.ack 0),
+   .cp .tick, .cp .tick]
+
+/-- **Full statement with kernel launches — a THEOREM since the repair of finding
+    `C11-cp-launch-in-shootdown`** (`processLaunchKernelReq` waits while `shootDownInProcess`, as
+    `processFlushReq` does). With every class of component present and roomy buffers the command processor
+    never panics, whatever the driver delivers — flush requests, copies, shootdown commands and kernel
+    launch requests in ANY interleaving, ticks, takes and acknowledgements in any order: no nil dereference
+    of `currFlushRequest`, no `never`, no `cache_send` (the kernel-start invalidation finds ToCaches empty).
+    The proof is the invariant `CpsSerInv` of `MgpuProofs/C11CpShare.lean`, which now holds in EVERY
+    reachable state: while a kernel-start invalidation is outstanding no shootdown is in process and the
+    launch request stays at the head of the port (`CpsLinv`), so the three users of `numCacheACK` never
+    overlap. -/
+theorem cps_no_fault_full (g : CpSCfg) (ops : List SOp) (hr : g.Roomy) : (reachCps g ops).s.c.fault = none :=
+  (cps_reach_serInv g hr ops).nf
+
+/-- while the kernel-start invalidation is outstanding no shootdown is in process, the launch request it
+    belongs to is the head of the driver port, and a shootdown command behind it waits; while a shootdown
+    is in process no invalidation is outstanding (every reachable state) -/
+theorem cps_launch_excludes_shootdown (g : CpSCfg) (ops : List SOp) (hr : g.Roomy) :
+    (∀ id, (reachCps g ops).s.l1Inv = some id →
+      (reachCps g ops).s.shoot = false ∧ (reachCps g ops).s.c.drvIn = [] ∧
+      ∃ rest, (reachCps g ops).s.later = .launch id :: rest) ∧
+    ((reachCps g ops).s.shoot = true → (reachCps g ops).s.l1Inv = none) :=
+  ⟨(cps_reach_serInv g hr ops).rest.linv, (cps_reach_serInv g hr ops).rest.l1_none_of_shoot⟩
+
+/-- the run of the former finding on the repaired code: the launch request waits through the whole
+    shootdown (CU, translator, cache and TLB phases in order), the `ShootdownCompleteRsp` goes out once,
+    THEN the two L1 invalidations are issued and the kernel starts -/
+example : (reachCps {} (cpsDemoLaunchInShoot ++ cpsDemoLaunchInShootTail)).s.log =
+    [.shootStart 0, .cuReq 0 true, .cuAck, .atReq 0 true, .atAck, .reset 1 true, .reset 2 true, .reset 0 true,
+     .reset 3 true, .ackS, .ackS, .ackS, .ackS, .tlbReq 0 true, .tlbAck, .shootDone 0 true, .inval 0 1, .inval 0 2,
+     .ackI, .ackI, .kstart 0] ∧
+    (reachCps {} (cpsDemoLaunchInShoot ++ cpsDemoLaunchInShootTail)).quiet ∧
+    (reachCps {} (cpsDemoLaunchInShoot ++ cpsDemoLaunchInShootTail)).drained = [.sdone 0] ∧
+    (reachCps {} (cpsDemoLaunchInShoot ++ cpsDemoLaunchInShootTail)).s.sig = "0,0,0,0,0,0,0,1,1" := by
+  unfold CpSEnv.quiet
+  decide +kernel
+
+/-- **The full statement for the code before that repair** (`CpSEnv.stepOldL`: `CpS.launchOld` takes a
+    launch request while `shootDownInProcess`; everything else is the same function). -/
+def cps_no_fault_full_before_fix : Prop :=
+  ∀ (g : CpSCfg) (ops : List SOp), g.Roomy → (reachCpsOldL g ops).s.c.fault = none
+
+/-- **Refuted for the old code — the former finding `C11-cp-launch-in-shootdown`** (`known_findings.d/C11.json`,
+    now under `fixed`; the run is replayed on the real `cp.CommandProcessor` by `harness/c11_share.go` as a
+    regression case): `processLaunchKernelReq` checked `numCacheACK > 0` but not `shootDownInProcess`. The two
+    invalidation acknowledgements bring the counter
     to 0 while `shootDownInProcess`: `processCacheFlushRsp` takes the shootdown branch, the TLB flush and
     the `ShootdownCompleteRsp` go out before the compute units and address translators answered; their
     later answers send the four reset requests, whose acknowledgements arrive with
     `shootDownInProcess == false` and `l1InvalidatedFor == nil`: `processRegularCacheFlush` dereferences
     `currFlushRequest == nil`. (No flush or copy answer is involved in this run.) -/
-theorem cps_no_fault_full_refuted : ¬ cps_no_fault_full := by
+theorem cps_no_fault_full_before_fix_refuted : ¬ cps_no_fault_full_before_fix := by
   intro h
   have hr : ({} : CpSCfg).Roomy := by unfold CpSCfg.Roomy; decide
   have h2 := h {} cpsDemoLaunchInShoot hr
-  have hf : (reachCps {} cpsDemoLaunchInShoot).s.c.fault = some "nilderef" := by decide +kernel
+  have hf : (reachCpsOldL {} cpsDemoLaunchInShoot).s.c.fault = some "nilderef" := by decide +kernel
   rw [hf] at h2
   cases h2
 
-/-- the events of that run: `shootDone` before `cuAck`; the last four events are the reset
+/-- the events of that run on the old code: `shootDone` before `cuAck`; the last four events are the reset
     acknowledgements handled as a regular flush's -/
-example : (reachCps {} cpsDemoLaunchInShoot).s.log =
+example : (reachCpsOldL {} cpsDemoLaunchInShoot).s.log =
     [.shootStart 0, .cuReq 0 true, .inval 0 1, .inval 0 2, .ackS, .ackS, .tlbReq 0 true, .kstart 0, .tlbAck,
      .shootDone 0 true, .cuAck, .atReq 0 true, .atAck, .reset 1 true, .reset 2 true, .reset 0 true, .reset 3 true,
      .cp .ack, .cp .ack, .cp .ack, .cp .ack] := by
